@@ -99,6 +99,12 @@ func genSealRoundtrip(h *H) {
 		ks = []int{1, 2, 3}
 	}
 	for _, v := range []string{"1.0", "2.0"} {
+		if !thorough && !h.specOracles {
+			s := h.randSealSpec(1, 0)
+			s.v = v
+			h.tag("len:two-blocks-plus-one")
+			h.Run(sealCase(s, [][]byte{h.rng.Bytes(2*mib + 1)}, sealRng(h.rng, 1), true))
+		}
 		for _, k := range ks {
 			for _, d := range []int{-1, 0, 1} {
 				s := h.randSealSpec(2, 1)
@@ -106,7 +112,7 @@ func genSealRoundtrip(h *H) {
 				h.tag("len:chunk-boundary")
 				msg := h.rng.Bytes(k*mib + d)
 				h.Run(sealCase(s, [][]byte{msg}, sealRng(h.rng, 2), true))
-				pats := []int{k + d + 1, k + d + 3}
+				pats := []int{k + d + 1 + 2*int(v[0]-'1')}
 				if thorough {
 					pats = []int{0, 1, 2, 3, 4}
 				}
